@@ -354,7 +354,9 @@ def float_counterexample(hyps, goal, tries=None):
         return None
     if tries is None:
         # many tries only where exact sampling is impossible (algebraic / uninterpreted atoms present); elsewhere this stage is a cheap extra look before z3
-        special = any(isinstance(X._nodes[i], X.E) and X._nodes[i].op in ("sqrt", "uf") for i in seen)
+        # - that is: an uninterpreted fractional power (the step controllers' `ratio ** (1/order)`).  For sqrt / exp / cos atoms the original 16 assignments of order one are
+        # kept: with tiny arguments (1/sqrt(omega), x^4 ...) float rounding of the evaluated goal exceeds the failure margin and produces candidates that do not replay
+        special = any(isinstance(X._nodes[i], X.E) and X._nodes[i].op == "uf" and X._nodes[i].args[0] == "pow" for i in seen)
         tries = 800 if special else 16
     rng = random.Random(4321)
     for t in range(tries):
